@@ -41,7 +41,7 @@ type refStmt struct {
 	tags []string
 }
 
-var columns = []string{"a", "b", "temp", "deviceId", "v1", "x_y", "s.a", "limit_x", "orderby", "fromage", "whereabouts", "grp"}
+var columns = []string{"a", "b", "temp", "deviceId", "v1", "x_y", "s.a", "limit_x", "orderby", "fromage", "whereabouts", "grp", "t.group", "m.having", "u.with", "v.limit", "w.order", "n.from"}
 var aliases = []string{"r", "total", "cnt", "avg_t", "m1", "out_a", "lim", "ord"}
 var sources = []string{"s", "stream", "t1", "input_stream", "fromage"}
 var trickyBodies = []string{"x", "LIMIT 5", "ORDER BY z", " WHERE ", "FROM t", "GROUP BY a HAVING b", "a AND b", "select", "with (", ")", "a,b", "=", "it is", "100%"}
